@@ -328,17 +328,6 @@ def _judge(sc, fault, stats):
                         dict(where, stderr=view.stderr[-500:]),
                     )
                 )
-            if kind == "cb" and fault["plan"].get("exc") != "ValueError":
-                pid = site.split("/")[1].upper()
-                action = site.split("/")[2]
-                if pid not in view.stderr or ("'%s'" % action) not in view.stderr:
-                    out.append(
-                        violation(
-                            "C07/wrapped",
-                            "C07/wrapped|cb",
-                            dict(where, stderr=view.stderr[-500:], expected="plugin id %s and action %s named" % (pid, action)),
-                        )
-                    )
     elif kind == "oserror" and view is not None:
         stats["oserror_exit:%s" % (view.exit if not view.exc else "traceback")] += 1
 
